@@ -42,7 +42,7 @@ import z3
 from vlib.smt import check_sat
 from vlib.stubs import Opaque
 
-from .core_make import rebind
+from .core_make import rebind_deep as rebind   # helpers extracted from the checker functions see the stubs too
 
 FN = "autograd.test_util"
 
